@@ -144,6 +144,27 @@ Theorem C09_pressure_planar_resultant : forall (v : R) es ns, NoDup ns ->
   Rsum (map (vec (contribs F_nodal_written es)) ns) = v * quad_sum es (fun _ _ => 1).
 Proof. exact pressure_planar_resultant. Qed.
 
+
+(* pressure on NON-planar face sets.  What is guaranteed: the resultant of the nodal-array load is
+   sum_e sum_p w_p|J_p| sum_j N_j p nhat_j (C09_resultant_nodal_written / _interp), exact on planar sets
+   (C09_pressure_planar_resultant).  What is NOT: equality with p * sum_e (area vector of e) -
+   refuted on a kinked open patch and on a closed surface (isosceles triangle: exact resultant 0,
+   nodal-normal averaging gives y-resultant 1 - (11/25)/sqrt(1/5) per unit pressure); the nodal normals in both witnesses
+   are the ones the averaging/normalising of Mesh.Get_normals produces. *)
+Theorem C09_pressure_kinked_patch_refuted :
+  vnormalize (vscale (/ 2) (vsum [vscale 1 (3/5, 4/5, 0); vscale 1 (-3/5, 4/5, 0)])) = (0, 1, 0) /\
+  (1/2) * (4/5) + 1 * 1 + (1/2) * (4/5) <> 1 * (4/5) + 1 * (4/5).
+Proof. exact pressure_kinked_patch_refuted. Qed.
+
+Theorem C09_pressure_closed_surface_refuted :
+  let r := sqrt ((2/5) * (2/5) + (-1/5) * (-1/5) + 0 * 0) in
+  vadd (vscale (6/5) (0, -1, 0)) (vadd (vscale 1 (4/5, 3/5, 0)) (vscale 1 (-4/5, 3/5, 0))) = (0, 0, 0) /\
+  vnormalize (vscale (/ 2) (vsum [(4/5, 3/5, 0); (-4/5, 3/5, 0)])) = (0, 1, 0) /\
+  vscale (/ 2) (vsum [(0, -1, 0); (4/5, 3/5, 0)]) = (2/5, -1/5, 0) /\
+  vnormalize (2/5, -1/5, 0) = (/ r * (2/5), / r * (-1/5), / r * 0) /\
+  1 * 1 + 2 * ((11/10) * (/ r * (-1/5))) <> 0.
+Proof. exact pressure_closed_surface_refuted. Qed.
+
 Print Assumptions C09_nodal_normal_planar.
 Print Assumptions C09_pressure_planar_resultant.
 
